@@ -164,7 +164,9 @@ theorem callFn_sat (d : Doc) (cfg : ECfg) (name : String) (fi : Plan) (c : Ref)
 
 theorem cmpM_sat (d : Doc) (op : Spec.CmpOp) {m n : MVal F} (hm : m.ok = true) (hn : n.ok = true) :
     Sat (fun _ => True) (cmpM d op m n) := by
-  cases m <;> cases n <;> first | (cases hm; done) | (cases hn; done) | simp [cmpM, xtypeOf, asBoolM, bind, Except.bind, pure, Except.pure, Sat]
+  cases m <;> cases n <;> first | (cases hm; done) | (cases hn; done) |
+    (cases op <;> simp [cmpM, xtypeOf, asBoolM, numBesideBoolM, Spec.CmpOp.isRel, bind, Except.bind, pure,
+      Except.pure, Sat])
 
 theorem logicalVal_sat (d : Doc) (op : String) {m n : MVal F} (hm : m.ok = true) (hn : n.ok = true) :
     Sat (fun v => v.ok = true) (logicalVal d op m n) := by
@@ -1090,14 +1092,3 @@ theorem round_in_comparison_crashes {F : Type} [NumAlg F] (d : Doc) (cfg : ECfg)
 
 end XPathV.Model
 
-#print axioms XPathV.Model.no_crash
-#print axioms XPathV.Model.evalP_not_int
-#print axioms XPathV.Model.argVals_ok
-#print axioms XPathV.Model.callFn_no_crash
-#print axioms XPathV.Model.callFn_value_ok
-#print axioms XPathV.Model.cmpM_no_crash
-#print axioms XPathV.Model.build_noNil
-#print axioms XPathV.Model.build_clean_modulo_round
-#print axioms XPathV.Model.build_clean
-#print axioms XPathV.Model.built_plan_no_crash
-#print axioms XPathV.Model.round_in_comparison_crashes
